@@ -27,8 +27,8 @@ LEVEL = "exploration"
 RULE = (
     "three operation-history machines (Hypothesis operation lists interpreted against the real object and a reference "
     "ledger): (a) Resources: allocate / allocate_multiple / deallocate / copy / deepcopy over 1-3 types x 1-2 instances, "
-    "'any' and specific-id requests; (b) Worker: place (plain and BatchStrategy, re-use after the batch emptied) / remove / "
-    "load / evict / step / copy / deepcopy; (c) WorkerPools: place with/without worker id and strategy / remove / copy / "
+    "'any' and specific-id requests, plus capacity vectors with an 'any'-id instance next to others (aggregate ledger); (b) Worker: place (plain and BatchStrategy, re-use after the batch emptied) / remove / "
+    "load (0 or 3 us) / evict / step with the pending and the available profile sets modelled / copy / deepcopy; (c) WorkerPools: place with/without worker id and strategy / remove / copy / "
     "deepcopy; plus the end-to-end ledger clause on simulated worlds. Non-trivial = a history with a refusal after >= 1 "
     "success, or a batch whose last member leaves, or a mutation after a copy; distinct by case hash."
 )
